@@ -178,12 +178,15 @@ func (loader *Loader) loadFromDataWithPathInternal(data []byte, location *url.UR
 	loader.visitedDocuments[uri] = doc
 
 	if err := unmarshal(data, doc, IncludeOrigin); err != nil {
+		// not a document of this loader: the next load of the location starts afresh
+		delete(loader.visitedDocuments, uri)
 		return nil, err
 	}
 
 	doc.url = copyURI(location)
 
 	if err := loader.ResolveRefsIn(doc, location); err != nil {
+		delete(loader.visitedDocuments, uri)
 		return nil, err
 	}
 
